@@ -208,21 +208,29 @@ Lemma float_frac_exp ex : float_frac_part (exp_chars ex) = ([], exp_chars ex).
 Proof. destruct ex as [[[neg [|]] ds]|]; reflexivity. Qed.
 
 Lemma py_float_body ip fp ex :
-  fdigits_ok ip = true -> nonempty ip = true -> fdigits_ok fp = true -> ex_ok ex = true ->
+  fdigits_ok ip = true -> nonempty ip || nonempty fp = true -> fdigits_ok fp = true -> ex_ok ex = true ->
   py_float (float_body ip fp ex)
   = Some (digits_val 10 0 (ip ++ fp), (- Z.of_nat (List.length fp) + exp_val ex)%Z).
 Proof.
   intros Hi Hn Hf He. unfold py_float, float_body. fold (exp_chars ex).
   assert (L10 : 10 <= 16) by lia.
-  destruct ip as [|i ip']; [discriminate|].
-  destruct fp as [|f fp'].
-  - cbn [app]. rewrite (span_d_digits 10 false (i :: ip') (exp_chars ex) false L10 Hi (stops_exp ex)).
-    rewrite float_frac_exp. rewrite !app_nil_r. apply float_exp_part_ok. exact He.
-  - rewrite (span_d_digits 10 false (i :: ip') ((c_dot :: render_digits false (f :: fp')) ++ exp_chars ex) false L10 Hi).
-    2:{ cbn [app stops]. split; reflexivity. }
-    cbn [app float_frac_part]. change (Ascii.eqb c_dot c_dot) with true. cbv iota.
+  destruct ip as [|i ip'].
+  - (* .5 : no integer part *)
+    destruct fp as [|f fp']; [discriminate|].
+    change (render_digits false [] ++ (c_dot :: render_digits false (f :: fp')) ++ exp_chars ex)
+      with (c_dot :: render_digits false (f :: fp') ++ exp_chars ex).
+    rewrite (span_d_stop 10 (c_dot :: render_digits false (f :: fp') ++ exp_chars ex) false) by (split; reflexivity).
+    cbn [float_frac_part]. change (Ascii.eqb c_dot c_dot) with true. cbv iota.
     rewrite (span_d_digits 10 false (f :: fp') (exp_chars ex) false L10 Hf (stops_exp ex)).
     cbn [app]. apply float_exp_part_ok. exact He.
+  - destruct fp as [|f fp'].
+    + cbn [app]. rewrite (span_d_digits 10 false (i :: ip') (exp_chars ex) false L10 Hi (stops_exp ex)).
+      rewrite float_frac_exp. rewrite !app_nil_r. apply float_exp_part_ok. exact He.
+    + rewrite (span_d_digits 10 false (i :: ip') ((c_dot :: render_digits false (f :: fp')) ++ exp_chars ex) false L10 Hi).
+      2:{ cbn [app stops]. split; reflexivity. }
+      cbn [app float_frac_part]. change (Ascii.eqb c_dot c_dot) with true. cbv iota.
+      rewrite (span_d_digits 10 false (f :: fp') (exp_chars ex) false L10 Hf (stops_exp ex)).
+      cbn [app]. apply float_exp_part_ok. exact He.
 Qed.
 
 (* ------------------------------------------------------------------ TypeScript *)
@@ -346,7 +354,7 @@ Qed.
 
 (* extract_total (TypeScript, floats) *)
 Lemma ts_extract_float pq bq ip fp ex :
-  fdigits_ok ip = true -> nonempty ip = true -> fdigits_ok fp = true -> ex_ok ex = true -> float_shape fp ex = true ->
+  fdigits_ok ip = true -> nonempty ip || nonempty fp = true -> fdigits_ok fp = true -> ex_ok ex = true -> float_shape fp ex = true ->
   ts_extract pq bq (lit_chars (LFloat ip fp ex ""))
   = Some (digits_val 10 0 (ip ++ fp), (- Z.of_nat (List.length fp) + exp_val ex)%Z).
 Proof.
@@ -640,5 +648,5 @@ Proof.
     [ | reflexivity | reflexivity | left; reflexivity | apply (over_mono float_alpha); [exact Hover | reflexivity] | exact HinAll].
   rewrite remove_us_app. rewrite (remove_us_over float_alpha _ Hover) by reflexivity.
   replace (remove_us (if us then [c_us] else [])) with (@nil ascii) by (destruct us; reflexivity).
-  rewrite app_nil_r. apply py_float_body; assumption.
+  rewrite app_nil_r. apply py_float_body; try assumption. rewrite Hn. reflexivity.
 Qed.
